@@ -516,6 +516,24 @@ Definition l0_float_text (buf : list N) (minDigits : N) : list N :=
        | z => s1 ++ repN 48 (minDigits - (lenN s1 - Z.to_N z - 1))
        end.
 
+(* Reading through a DataUnflattener that is a WINDOW of [win] bytes onto a larger array [arena], after [r] bytes have
+   been consumed: only the bytes of the window that remain can matter.  [PBytes n] = ReadBytes/ReadInt32 (n bytes, all or
+   nothing), [PStr] = ReadCString / String::Unflatten of an earlier String. *)
+Inductive pre := PBytes (n : N) | PStr.
+Definition win_remaining (arena : list N) (win r : N) : list N := dropN r (takeN win arena).
+(* ReadCString: None = nothing available or no NUL among the remaining bytes (the read position stays) *)
+Definition read_cstr_w (arena : list N) (win r : N) : option (list N) * N :=
+  let rem := win_remaining arena win r in
+  if list_eqb (cstr rem) rem then (None, r) else (Some (cstr rem), r + lenN (cstr rem) + 1).
+Definition pre_step (arena : list N) (win r : N) (p : pre) : N :=
+  match p with
+  | PBytes n => if n <=? lenN (win_remaining arena win r) then r + n else r
+  | PStr => snd (read_cstr_w arena win r)
+  end.
+Definition run_pre (arena : list N) (win : N) (ps : list pre) : N := fold_left (pre_step arena win) ps 0.
+(* status and bytes consumed in one number: consumed if the parse succeeded, -(consumed)-1 if it was rejected *)
+Definition w_result (ok : bool) (consumed : N) : Z := if ok then Z.of_N consumed else (- Z.of_N consumed - 1)%Z.
+
 Definition l0_padded (l : list N) (minLen : N) (right : bool) (ch : N) : list N :=
   if (lenN l <? minLen) && negb (ch =? 0)
   then (if right then l ++ repN ch (minLen - lenN l) else repN ch (minLen - lenN l) ++ l)
